@@ -596,6 +596,7 @@ func serialShapes(thorough bool) []bmShape {
 		{"R1,A1,A1,A1", P("ak", 4, "akeys", 0, "ac0", 201, "ac1", 1, "ac2", 1, "ac3", 1), 0, 0, 0},
 		{"A1 x4 (no run)", P("ak", 4, "akeys", 0, "ac0", 1, "ac1", 1, "ac2", 1, "ac3", 1), 0, 0, 0},
 		{"A1,R1,A1,R1,A1", P("ak", 5, "akeys", 0, "ac0", 1, "ac1", 201, "ac2", 1, "ac3", 201, "ac4", 1), 0, 0, 0},
+		{"8 chunks, one run (a whole byte of run flags)", P("ak", 8, "akeys", 4, "ac0", 1, "ac1", 1, "ac2", 1, "ac3", 201, "ac4", 1, "ac5", 1, "ac6", 1, "ac7", 1), 0, 0, 0},
 		{"B(lo),A1", P("ak", 2, "akeys", 4, "ac0", 100, "ac1", 1), 0, 0, 0},
 		{"A*(4096),A1: the largest array chunk", P("ak", 2, "akeys", 4, "ac0", 14, "ac1", 1), 0, 0, 0},
 		{"Rfull,A1", P("ak", 2, "akeys", 3, "ac0", 220, "ac1", 1), 0, 0, 0},
@@ -1055,6 +1056,8 @@ func c16Instances(add func(*Instance), thorough bool) {
 	} {
 		add(&Instance{Func: "VerifC16Dense", Params: with(sh, "L", 7, "eff", 1)})
 	}
+	add(&Instance{Func: "VerifC16Dense", Params: P("L", 7, "eff", 1, "sizeonly", 1, "ak", 2, "akeys", 2, "ac0", 1, "ac1", 226, "xb", 0, "xm", -1)})
+	add(&Instance{Func: "VerifC16Dense", Params: P("L", 7, "eff", 1, "sizeonly", 1, "ak", 1, "akeys", 2, "ac0", 2, "xb", 0, "xm", -1)})
 	// dense import: lengths not multiple of 1024, trailing partial chunk, both copy modes, function and method
 	for _, n := range []int{1, 2, 1023, 1024, 1025, 2049} {
 		for _, pat := range []int{0, 1} {
@@ -1143,10 +1146,11 @@ func c18Instances(add func(*Instance), thorough bool) {
 		P("anb", 2, "ane", 1, "akeys", 0),
 		P("anb", 2, "ane", 2, "akeys", 2, "aopt", 1),
 		P("anb", 1, "ane", 0, "akeys", 0, "afour", 1),
+		P("anb", 1, "ane", 0, "akeys", 0, "afour", 8),
 	}
 	for _, sh := range shapes {
 		for rd := 0; rd <= 2; rd++ {
-			if sh["afour"] == 1 && rd > 0 {
+			if sh["afour"] >= 1 && rd > 0 {
 				continue
 			}
 			add(&Instance{Pkg: "roaring64", Func: "VerifC18RoundTrip", Params: with(sh, "rd", rd, "wr", rd, "tail", 2, "xm", -1)})
